@@ -42,8 +42,11 @@ class CalleeGen:
         free_arr = ["a", "b", "c"]
         r.shuffle(free_arr)
         mm_free = True
-        for nm in names:
+        force_arr = any(self.o.get(x) for x in ("stride", "rank", "arrayexpr"))
+        for pos, nm in enumerate(names):
             kind = r.choice(["svar", "svar", "svar", "selem", "selem", "sexpr", "slit", "arr1", "arr1", "arr2"])
+            if force_arr and pos == 0:
+                kind = "arr1"
             f = {"name": nm, "kind": kind, "definable": True, "rank": 0}
             if kind == "svar" and free_scal:
                 f["actual"] = free_scal.pop()
@@ -75,7 +78,7 @@ class CalleeGen:
                 else:
                     f["dims"] = f"{lo}:{lo + 3}"
                 f["lo"] = [lo]
-                if mm_free and (not free_arr or r.random() < 0.3):
+                if mm_free and not force_arr and (not free_arr or r.random() < 0.3):
                     mm_free = False
                     f["actual"] = r.choice(["mm(:, j)", "mm(i, :)", "mm(1:4, 3)", "mm(2, 3:6)", "mm(0:3, j)",
                                             "mm(j, 3:7)"])
